@@ -341,13 +341,15 @@ SCENARIOS = {
     'direct-direct-same-id': [[('import_direct', 'K1', 'good')], [('import_direct', 'K1', 'good2')]],
     'add-add-add': [[('add_node', 'g', 'x')], [('add_node', 'g', 'y')], [('add_node', 'h', 'z')]],
     'import-import-add': [[('import', 'K1', 'good')], [('import', 'K2', 'good')], [('add_node', 'g', 'x')]],
+    # everything is deleted while another thread imports a graph and creates a node in it
+    'delall-import-blank': [[('del_all',)], [('import', 'K1', 'good'), ('blank', 'K1', 'x')]],
     # first use: no store exists yet in the process; each thread builds its own importer (which builds or finds the store)
     'first-use-import-import': [[('first_import', 'K1', 'good')], [('first_import', 'K2', 'good2')]],
     'first-use-import-add': [[('first_import', 'K1', 'good')], [('first_import', 'K2', 'good'), ('add_node', 'K2', 'x')]],
 }
 QUICK_SCEN = ['add-add-same-graph', 'add-add-other-graph', 'import-import-fresh', 'import-add', 'import-import-same-id',
               'add2-add', 'import-extract', 'blank-extract', 'blank-blank', 'direct-direct', 'direct-blank', 'direct-import',
-              'first-use-import-import']
+              'first-use-import-import', 'delall-import-blank']
 
 
 class Harness:
@@ -458,6 +460,8 @@ class Harness:
             self.store().add_graph_direct(op[1], g)
         elif k == 'extract':
             self.store().extract_graph(op[1])
+        elif k == 'del_all':
+            self.store().del_all_graphs()
         elif k == 'first_import':
             # a component of the process that has never touched the store: builds its importer, then imports
             imp = self.imp()
